@@ -562,6 +562,7 @@ func checkC20(p *Prog, res *Result, tier string) {
 	res.rule("C20-R8", "every position used with the backing array of a ring buffer (element index, slice bound) is the result of the ring's wrap function (x % capacity): a watch request cannot make the event cache index out of range", 8)
 	res.rule("C20-R9", "a metric collector is registered (MustRegister panics on duplicates) only on the miss edge of a registry lookup made under the registry's write lock", 3)
 	res.rule("C20-R10", "no nil element in a repeated message field of an answer: an element produced by a nil-for-nil converter is stored only where its argument was tested non-nil (or is an element of the backend's list)", 3)
+	res.rule("C20-R11", "no check-then-use contradiction in the request layers: a pointer that a function compares with nil somewhere is dereferenced only where it is known to be non-nil (or where an error that came with it was found nil)", 3)
 	res.rule("C20-R6", "label values reach the prometheus client only through a UTF-8 sanitiser: request bytes used as a label value (a watched prefix) cannot make With() panic", 1)
 	res.rule("C20-R5", "no allocation is sized by an integer taken from a request (limit, revision, lease ...) without an upper bound: make() with such a size can exceed memory or panic outright", 3)
 	res.rule("C20-R4", "constant-index accesses to request-derived slices in the etcd request layer are dominated by a matching length test", 5)
@@ -755,6 +756,7 @@ func checkC20(p *Prog, res *Result, tier string) {
 	checkRingIndexing(p, res)
 	checkRegisterOnce(p, res, "C20-R9")
 	checkNoNilMessageElement(p, res, "C20-R10")
+	checkNilBeliefContradiction(p, res, "C20-R11")
 	checkStreamResponsesComplete(p, res, "C20-R2")
 	// R7: self-deadlock (C19-R5)
 	checkSelfDeadlock(p, p.lockContext(), res, "C20-R7")
@@ -1464,12 +1466,15 @@ func checkLabelValueSanitised(p *Prog, res *Result) {
 // integer field of the receiver (the wrap function). Every index into, and every explicit bound of a slice expression
 // over, the slice field must be a result of the wrap function (or that modulo written out, or the constant 0):
 // positions computed any other way (wrap(a)+b) leave the array once the ring has wrapped.
-func checkRingIndexing(p *Prog, res *Result) {
-	type ring struct {
-		wrap *ssa.Function
-		capF *types.Var
-	}
-	rings := map[*types.Named]ring{}
+type ringInfo struct {
+	wrap *ssa.Function
+	capF *types.Var
+}
+
+// findRings: ring types of the repository - a named struct with a one-line method that reduces its argument modulo a
+// field of the receiver (the wrap function).
+func findRings(p *Prog) (map[*types.Named]ringInfo, func(v ssa.Value, recv *ssa.Parameter) *types.Var) {
+	rings := map[*types.Named]ringInfo{}
 	modOfField := func(v ssa.Value, recv *ssa.Parameter) *types.Var {
 		v = resolve(v)
 		for {
@@ -1518,9 +1523,15 @@ func checkRingIndexing(p *Prog, res *Result) {
 			continue
 		}
 		if n, ok := pt.Elem().(*types.Named); ok {
-			rings[n] = ring{f, capF}
+			rings[n] = ringInfo{f, capF}
 		}
 	}
+	return rings, modOfField
+}
+
+func checkRingIndexing(p *Prog, res *Result) {
+	type ring = ringInfo
+	rings, modOfField := findRings(p)
 	if len(rings) == 0 {
 		res.und("C20-R8", "ring buffers", "-", "no ring type (slice field + wrap method) found")
 		return
@@ -1892,5 +1903,229 @@ func checkNoNilMessageElement(p *Prog, res *Result, rule string) {
 	}
 	if n == 0 {
 		res.und(rule, "etcd translation: converted elements", "-", "none found")
+	}
+}
+
+// checkNilBeliefContradiction (C20-R11): if a function compares a pointer with nil somewhere, it believes the pointer
+// can be nil; a dereference of that same value at a place where neither that comparison nor any other test makes it
+// non-nil contradicts the belief (Engler et al.: check-then-use). The value is typically the response variable of a
+// handler that is assigned together with an error on several branches: nil whenever the error is not.
+func checkNilBeliefContradiction(p *Prog, res *Result, rule string) {
+	n := 0
+	perFn := map[*ssa.Function]int{}
+	for _, f := range p.AllFuncs {
+		if f.Pkg == nil || f.Blocks == nil {
+			continue
+		}
+		pp := f.Pkg.Pkg.Path()
+		if !strings.HasPrefix(pp, modPath+"/pkg/server") && !strings.HasPrefix(pp, modPath+"/pkg/backend") {
+			continue
+		}
+		// values compared with nil
+		believed := map[ssa.Value]bool{}
+		for _, b := range f.Blocks {
+			iff := ifOf(b)
+			if iff == nil {
+				continue
+			}
+			for _, cf := range expandFact(factOf(iff.Cond, true), 0) {
+				if cf.X == nil || (cf.Op != token.EQL && cf.Op != token.NEQ) {
+					continue
+				}
+				x, y := cf.X, cf.Y
+				if isNilConst(resolve(x)) {
+					x, y = y, x
+				}
+				if !isNilConst(resolve(y)) {
+					continue
+				}
+				if _, ok := x.Type().Underlying().(*types.Pointer); ok {
+					believed[x] = true
+				}
+			}
+		}
+		if len(believed) == 0 {
+			continue
+		}
+		for _, b := range f.Blocks {
+			for _, ins := range b.Instrs {
+				var base ssa.Value
+				switch x := ins.(type) {
+				case *ssa.FieldAddr:
+					base = x.X
+				case *ssa.UnOp:
+					if x.Op == token.MUL {
+						base = x.X
+					}
+				}
+				if base == nil || !believed[base] {
+					continue
+				}
+				n++
+				perFn[f]++
+				construct := fmt.Sprintf("%s: dereference #%d of a pointer that is also compared with nil", funcName(f), perFn[f])
+				// every path from the entry to the dereference takes an edge on which the pointer is known non-nil (or an
+				// error is known nil), or ends in a call that does not return
+				goodFact := func(cf condFact) bool {
+					if cf.X == nil {
+						return false
+					}
+					x, y := cf.X, cf.Y
+					if isNilConst(resolve(x)) {
+						x, y = y, x
+					}
+					if !isNilConst(resolve(y)) {
+						return false
+					}
+					nonNil := (cf.Op == token.NEQ && cf.Want) || (cf.Op == token.EQL && !cf.Want)
+					isNil := (cf.Op == token.EQL && cf.Want) || (cf.Op == token.NEQ && !cf.Want)
+					if x == base && nonNil {
+						return true
+					}
+					// an error found nil: the value that came with it is taken to be there
+					return isNil && types.Identical(x.Type(), types.Universe.Lookup("error").Type())
+				}
+				target := ins
+				hit, _ := searchFrom(f.Blocks[0], 0, searchOpts{
+					bad:  func(i ssa.Instruction) bool { return i == target },
+					stop: func(i ssa.Instruction) bool { c, ok := i.(ssa.CallInstruction); return ok && isNoReturnCall(c) },
+					skipEdge: func(from *ssa.BasicBlock, si int) bool {
+						if ifOf(from) == nil {
+							return false
+						}
+						for _, cf := range expandFact(edgeFact(edge{from, si}), 0) {
+							if goodFact(cf) {
+								return true
+							}
+						}
+						return false
+					},
+				})
+				safe := hit == nil
+				if safe {
+					res.ok(rule, construct, p.pos(ins.Pos()), "known non-nil here")
+				} else {
+					res.bad(rule, construct, p.pos(ins.Pos()), "the function tests this pointer for nil elsewhere, so it can be nil - and it is dereferenced here where nothing has established that it is not (a response variable is nil whenever the call that assigned it returned an error): the handler panics, and nothing recovers a panic in a request goroutine")
+				}
+			}
+		}
+	}
+	if n == 0 {
+		res.ok(rule, "nil-belief contradictions", "-", "no pointer that is compared with nil is dereferenced")
+	}
+}
+
+// isNoReturnCall: klog.Fatal*, log.Fatal* / Panic*, os.Exit, runtime.Goexit, panic.
+func isNoReturnCall(c ssa.CallInstruction) bool {
+	if bi, ok := c.Common().Value.(*ssa.Builtin); ok {
+		return bi.Name() == "panic"
+	}
+	sc := c.Common().StaticCallee()
+	if sc == nil || sc.Pkg == nil {
+		return false
+	}
+	pp := sc.Pkg.Pkg.Path()
+	switch {
+	case pp == "k8s.io/klog/v2" && strings.HasPrefix(sc.Name(), "Fatal"):
+		return true
+	case pp == "log" && (strings.HasPrefix(sc.Name(), "Fatal") || strings.HasPrefix(sc.Name(), "Panic")):
+		return true
+	case pp == "os" && sc.Name() == "Exit":
+		return true
+	case pp == "runtime" && sc.Name() == "Goexit":
+		return true
+	}
+	return false
+}
+
+// checkRingLogicalPositions: the ring keeps its entries at the logical positions start .. end-1 and maps a logical
+// position to a slot with its wrap function. Whatever is handed to the wrap function is therefore a logical position:
+// the start or the end counter of the ring, plus or minus an offset. An offset alone (the i of a search over the
+// entries) addresses slots as if the ring had never wrapped: the search then runs over a rotated sequence and replay
+// from the cache skips events.
+func checkRingLogicalPositions(p *Prog, res *Result, rule string) {
+	rings, _ := findRings(p)
+	n := 0
+	perTop := map[*ssa.Function]int{}
+	for named, rg := range rings {
+		st, ok := named.Underlying().(*types.Struct)
+		if !ok {
+			continue
+		}
+		counters := map[*types.Var]bool{}
+		for i := 0; i < st.NumFields(); i++ {
+			fv := st.Field(i)
+			if bt, ok := fv.Type().Underlying().(*types.Basic); ok && bt.Info()&types.IsInteger != 0 && fv != rg.capF {
+				counters[fv] = true
+			}
+		}
+		var logical func(v ssa.Value, d int) bool
+		logical = func(v ssa.Value, d int) bool {
+			v = resolve(v)
+			if d > 6 {
+				return false
+			}
+			switch x := v.(type) {
+			case *ssa.Convert:
+				return logical(x.X, d+1)
+			case *ssa.UnOp:
+				if x.Op == token.MUL {
+					if fa, ok := x.X.(*ssa.FieldAddr); ok && counters[fieldOf(fa)] {
+						return true
+					}
+				}
+			case *ssa.BinOp:
+				if x.Op == token.ADD {
+					return logical(x.X, d+1) || logical(x.Y, d+1)
+				}
+				if x.Op == token.SUB {
+					return logical(x.X, d+1)
+				}
+			case *ssa.Phi:
+				for _, e := range x.Edges {
+					if !logical(e, d+1) {
+						return false
+					}
+				}
+				return len(x.Edges) > 0
+			case *ssa.Parameter:
+				acts := p.paramActuals(x)
+				if len(acts) == 0 || p.addressTaken(x.Parent()) {
+					return false
+				}
+				for _, a := range acts {
+					if !logical(a, d+1) {
+						return false
+					}
+				}
+				return true
+			}
+			return false
+		}
+		for _, f := range p.AllFuncs {
+			if f.Synthetic != "" || f.Blocks == nil {
+				continue
+			}
+			for _, c := range callsIn(f) {
+				if c.Common().StaticCallee() != rg.wrap || len(c.Common().Args) < 2 {
+					continue
+				}
+				n++
+				top := f
+				for top.Parent() != nil {
+					top = top.Parent()
+				}
+				perTop[top]++
+				construct := fmt.Sprintf("%s: argument #%d of %s.%s", funcName(top), perTop[top], named.Obj().Name(), rg.wrap.Name())
+				if logical(c.Common().Args[1], 0) {
+					res.ok(rule, construct, p.pos(c.Pos()), "start / end counter of the ring plus an offset")
+				} else {
+					res.bad(rule, construct, p.pos(c.Pos()), "the ring's wrap function is handed an offset that is not taken from the ring's start or end counter: it addresses slots as if the ring had never wrapped, so once the start has moved the search (or copy) runs over a rotated sequence - a watch replayed from the cache skips events that are in it")
+				}
+			}
+		}
+	}
+	if n == 0 {
+		res.und(rule, "ring buffers: wrap function", "-", "no call of a ring's wrap function found")
 	}
 }
